@@ -15,13 +15,14 @@ from . import simrun as R
 
 CLAIM = dict(
     claimed=False,
-    text="Machine-checked theorems (coq/Props/C05s.v, C18s.v, closed under the global context) for fast_SIS (every draw script) and fast_nonMarkov_SIS (every rule table): "
-         "every returning run starts from the request (row 0, first history entry of every node, source-less transmissions = the initial nodes in order, rho count / distinctness, EoNError clause, "
-         "single node = one-element list); the return_full_data flag changes neither the calls made to the random source, nor the calls of the user's rules, nor the arrays; "
-         "the order of initial_infecteds is an input (witnesses).",
+    text="Machine-checked theorems (coq/Props/C05s.v, C18s.v, closed under the global context) for fast_SIS (every draw script) and fast_nonMarkov_SIS (every rule table inside rules_ok): "
+         "every returning run starts from the request whichever way it is given (row 0; first history entry of every node; source-less transmissions = the initial nodes in order; rho count / distinctness; "
+         "EoNError clause; single node = one-element list); on every script of positive draws / positive rule tables nothing but the request is dated tmin and node_status(u, tmin) is the request; "
+         "the return_full_data flag changes neither the calls made to the random source, nor the calls of the user's rules (consulted only at the calls transmissions() lists), nor the arrays; "
+         "the order of initial_infecteds is an input of fast_SIS (witness) and, for fast_nonMarkov_SIS, irrelevant for arrays and histories on tie-free runs (it shows only in ties and in the order of the leading transmissions).",
     design='DESIGN.md section 4, C05 / C18',
-    technique='Coq proof (lock-step log invariant; head of a node history without tie hypotheses; result-level simulation of sampler programs; rule tables consulted only at logged calls) '
-              '+ extracted checkers and call-trace comparison on the implementation',
+    technique='Coq proof (lock-step log invariant; head of a node history without tie hypotheses; positivity invariant of the event loops; result-level simulation of sampler programs; '
+              'rule tables consulted only at logged calls; commutation of initial infections in the reference agenda semantics) + extracted checkers and call-trace comparison on the implementation',
     note='stand-alone form of the xsis05 part of C05 / C18')
 
 COMP = 'xsis05'
